@@ -454,17 +454,13 @@ class Group(System):
                             raise RuntimeError("{}: vector scalers with distrib vars "
                                                "not supported yet.".format(self.msginfo))
 
-                        src_indices = idx_list_to_index_array(src_inds_list)
-                        if not np.ndim(src_indices) < 2:
-                            src_indices = _flatten_src_indices(src_indices,
-                                                               in_node_meta.shape,
-                                                               src_node_meta.global_shape,
-                                                               src_node_meta.global_size)
-
-                        if not scalar_ref:
-                            ref = ref[src_indices]
-                        if not scalar_ref0:
-                            ref0 = ref0[src_indices]
+                        # flat positions of the source entries that this input reads
+                        src_indices = conn_graph.get_src_index_array(abs_in)
+                        if src_indices is not None:
+                            if not scalar_ref:
+                                ref = np.ravel(ref)[src_indices]
+                            if not scalar_ref0:
+                                ref0 = np.ravel(ref0)[src_indices]
                         if scalar_ref:  # ref is scalar so ref0 must be an array
                             ref = np.full(ref0.shape, ref)
                         if scalar_ref0:  # ref0 is scalar so ref must be an array
